@@ -458,3 +458,20 @@ theorem applyOps_readable (ops : List Op) : ∀ (d : DS), (Obj.concept d).readab
     exact ih (applyOp d op) (applyOp_readable d op h (hall op (by simp))) (fun o ho => hall o (by simp [ho]))
 
 end HdVerif.Coding
+
+namespace HdVerif.Coding
+open HdVerif HdVerif.Gen
+
+/-- what acceptance by the constructor means -/
+theorem mkConcept_ok (v s m : String) (ver : Option String) (d : DS) (hd : mkConcept v s m ver = .ok d) :
+    anyBackslash v s m ver = false ∧ m.length ≤ 64 ∧ d = builtDS (stdKeyword v) v s m ver := by
+  rw [mkConcept_spec] at hd
+  by_cases hb : anyBackslash v s m ver = true
+  · simp [hb] at hd
+  · by_cases hm : m.length > 64
+    · simp [hb, hm] at hd
+    · simp only [hb, hm, if_false, Bool.false_eq_true] at hd
+      refine ⟨by simpa using hb, by omega, ?_⟩
+      cases hd; rfl
+
+end HdVerif.Coding
